@@ -18,6 +18,7 @@
 package pqmr
 
 import (
+	"encoding/binary"
 	"fmt"
 	"io"
 	"os"
@@ -237,6 +238,17 @@ func (pqmr *PQMatchResults) FlushPqmr(fname *string, blkNum uint16) error {
 
 // read the pqmr file which has match results for each block
 // return each of those pqmr blocks
+// BitsetFitsBuffer checks a serialized bit set (8 bytes bit count, then the
+// words) before it is handed to the bitset library, which allocates by the
+// stored bit count.
+func BitsetFitsBuffer(buf []byte) bool {
+	if len(buf) < 8 {
+		return false
+	}
+	numBits := binary.BigEndian.Uint64(buf[0:8])
+	return numBits <= uint64(len(buf)-8)*8
+}
+
 func ReadPqmr(fname *string) (*SegmentPQMRResults, error) {
 
 	res := make(map[uint16]*PQMatchResults)
@@ -290,6 +302,10 @@ func ReadPqmr(fname *string) (*SegmentPQMRResults, error) {
 		}
 		offset += int64(bsSize)
 
+		if !BitsetFitsBuffer(bsBlk[:bsSize]) {
+			log.Errorf("ReadPqmr: bitset of blkNum=%v does not fit its %v bytes, fname=%v", blkNum, bsSize, *fname)
+			return nil, fmt.Errorf("ReadPqmr: bitset of blkNum=%v does not fit its %v bytes", blkNum, bsSize)
+		}
 		bs := bitset.New(0)
 		err = bs.UnmarshalBinary(bsBlk[:bsSize])
 		if err != nil {
